@@ -44,10 +44,12 @@ AXES = {
     "fs": [(1, 1), (2, 2), (2, 3), (1, 2)],
     "grad_kind": ["rank1_first", "table", "onehot_first"],
     "beta1": [0.0, 0.5],
+    "bias_corr": [True, False],
+    "gscale": [1.0, 2.0 ** -17],  # tiny gradients, epsilon scaled by gscale^2 (diagonality must be decided exactly)
 }
 BASELINES = [
-    {"beta2": 0.5, "eps": 1e-1, "inv_root_override": 0, "ignored": [], "graft": None, "mw": (0.0, 0.0), "shape": [2, 3], "fs": (1, 1), "grad_kind": "rank1_first", "beta1": 0.0},
-    {"beta2": 0.5, "eps": 1e-1, "inv_root_override": 0, "ignored": [], "graft": ["adam", 0.5, 1e-1], "mw": (0.5, 0.5), "shape": [2, 2, 2], "fs": (2, 2), "grad_kind": "table", "beta1": 0.5},
+    {"beta2": 0.5, "eps": 1e-1, "inv_root_override": 0, "ignored": [], "graft": None, "mw": (0.0, 0.0), "shape": [2, 3], "fs": (1, 1), "grad_kind": "rank1_first", "beta1": 0.0, "bias_corr": True, "gscale": 1.0},
+    {"beta2": 0.5, "eps": 1e-1, "inv_root_override": 0, "ignored": [], "graft": ["adam", 0.5, 1e-1], "mw": (0.5, 0.5), "shape": [2, 2, 2], "fs": (2, 2), "grad_kind": "table", "beta1": 0.5, "bias_corr": True, "gscale": 1.0},
 ]
 
 
@@ -61,7 +63,7 @@ def mk(d, method, dt, seed):
     pc = ["soap", dict(method, ignored=d["ignored"])]
     return seq.cfg_with(
         shapes=[d["shape"], [3]], max_dim=1024, merge=False, freq=d["fs"][0], start=d["fs"][1], pdtype=dt[0], prec_dtype=dt[1], inv_root_override=d["inv_root_override"],
-        precond=pc, betas=[d["beta1"], d["beta2"]], eps=d["eps"], momentum=d["mw"][0], wd=d["mw"][1], graft=d["graft"], grad_kind=d["grad_kind"], lr=0.125, seed=seed,
+        precond=pc, betas=[d["beta1"], d["beta2"]], eps=d["eps"] * d["gscale"] ** 2, bias_corr=d["bias_corr"], gscale=d["gscale"], momentum=d["mw"][0], wd=d["mw"][1], graft=d["graft"], grad_kind=d["grad_kind"], lr=0.125, seed=seed,
     )
 
 
